@@ -373,3 +373,45 @@ Proof.
   replace j with (length p + S (length q)) by lia.
   eapply discipline_orders; eauto.
 Qed.
+
+(* ---- a witness that the discipline matters: two unordered plain writes ---- *)
+Lemma no_out_edge tr i : (forall k, ~ edge tr i k) -> forall j, ~ hb tr i j.
+Proof.
+  intros H j Hhb. apply clos_trans_t1n in Hhb. inversion Hhb; subst; eapply H; eauto.
+Qed.
+
+Definition racy_trace : list event :=
+  [EPub 0 0; EAcc 0 0 Wr false; EAcc 1 0 Wr false].
+
+Lemma racy_trace_wf : wf init racy_trace.
+Proof. apply wf_exec. eexists. vm_compute. reflexivity. Qed.
+
+Lemma racy_trace_races : race racy_trace.
+Proof.
+  exists 1, 2, 0, 1, 0, Wr, false, Wr, false.
+  split; [lia|]. split; [reflexivity|]. split; [reflexivity|].
+  split; [split; [left; reflexivity | reflexivity]|].
+  apply no_out_edge. intros k He.
+  inversion He as [e1 e2 Hlt H1 H2 Ht | t1 t2 l m1 m2 Hlt H1 H2 Hc | t1 t2 x k0 a Hlt H1 H2];
+    cbn in H1; inversion H1; subst.
+  destruct k as [|[|[|k]]]; cbn in H2; try lia; try discriminate.
+  - inversion H2; subst. cbn in Ht. discriminate.
+  - destruct k; discriminate.
+Qed.
+
+Lemma broken_discipline_races : exists tr, wf init tr /\ race tr.
+Proof. exists racy_trace. split; [apply racy_trace_wf | apply racy_trace_races]. Qed.
+
+(* no discipline is followed by the racy trace (consequence of the theorem) *)
+Lemma racy_trace_follows_nothing D : follows D init racy_trace = false.
+Proof.
+  destruct (follows D init racy_trace) eqn:F; [|reflexivity].
+  exfalso. eapply lockset_race_free; [apply racy_trace_wf | exact F | apply racy_trace_races].
+Qed.
+
+(* the same accesses under a common lock are disciplined and well formed *)
+Definition locked_trace : list event :=
+  [EPub 0 0; EAcq 0 7 MW; EAcc 0 0 Wr false; ERel 0 7 MW; EAcq 1 7 MR; EAcc 1 0 Rd false; ERel 1 7 MR].
+
+Lemma locked_trace_ok : wf init locked_trace /\ follows (fun _ => DLock 7) init locked_trace = true.
+Proof. split; [apply wf_exec; eexists; vm_compute; reflexivity | vm_compute; reflexivity]. Qed.
